@@ -16,7 +16,9 @@ Run level        NSGAII, EpsMOEA, OMOPSO, SMPSO, PSOGA short runs with every vec
                  direct oracle = box membership of each; correspondence = the generation-step model replayed on
                  the recorded selections / tapes / velocities / re-rolls reproduces the evaluated vectors.
 """
+import json
 import math
+import os
 from fractions import Fraction
 
 from harness.core import fl, zl, nl, bl, ql, ll, pl, optl, FLOAT_AXIOMS
@@ -264,7 +266,7 @@ def run(ctx):
             "index_error_cases": 0, "sbx_skipped_by_probability": 0, "sbx_coincident_coords": 0,
             "skipped_nan_tape": 0, "skipped_pm_zero_width": 0, "long_parent": 0,
             "position_reset_upper": 0, "position_reset_lower": 0, "position_kept": 0,
-            "complex_from_parent_in_rounding_slack": 0}
+            "complex_from_parent_in_rounding_slack": 0, "corpus_cases": 0}
     cases, expected, meta = [], [], []
 
     def in_declared_box(box, v):
@@ -335,6 +337,7 @@ def run(ctx):
                 ctx.mismatches.append({"what": "%s mutation raised %r" % (kind, e), "case": inp})
                 return
             tape = rec.cut()
+        inp["draws"] = [v for k, v in tape if k == "D"]
         count_op(kind)
         if result is None:
             hist["index_error_cases"] += 1
@@ -409,6 +412,7 @@ def run(ctx):
                 ctx.mismatches.append({"what": "SBX raised %r" % (e,), "case": inp})
                 return
             tape = rec.cut()
+        inp["draws"] = [v for k, v in tape if k == "D"]
         count_op("sbx")
         oracle_child("sbx child 1", box, result[0], len(p1), inp)
         oracle_child("sbx child 2", box, result[1], len(p2), inp)
@@ -523,45 +527,27 @@ def run(ctx):
         return lambda: next(it)
 
     one = 1.0 - 2.0 ** -53
-    corpus_ops = [
-        # parent on the bound with the extreme draws
-        ("pm", [(0.0, 1.0)], [0.0], 1.0, {"distribution_index": 20}, [0.0, 0.0]),
-        ("pm", [(0.0, 1.0)], [1.0], 1.0, {"distribution_index": 20}, [0.0, one]),
-        ("pm", [(0.0, 1.0)], [0.0], 1.0, {"distribution_index": 20}, [0.0, one]),
-        ("pm", [(0.0, 1.0)], [1.0], 1.0, {"distribution_index": 20}, [0.0, 0.0]),
-        ("pm", [(-7.5, -2.25), (1e6, 1e12)], [-2.25, 1e6], 1.0, {"distribution_index": 0}, [0.1, 0.5, 0.2, math.nextafter(0.5, 0.0)]),
-        ("pm", [(0.0, 1.0), (0.0, 1.0)], [0.3, 0.6], 0.5, {"distribution_index": 20}, [0.5, math.nextafter(0.5, 0.0), 0.7]),
-        ("uniform", [(0.0, 1.0)], [1.0], 1.0, {"perturbation": 0.5}, [0.0, one]),
-        ("uniform", [(0.0, 1.0)], [0.0], 1.0, {"perturbation": 0.5}, [0.0, 0.0]),
-        ("uniform", [(2.0, 2.0)], [2.0], 1.0, {"perturbation": 50.0}, [0.0, 0.9]),
-        ("uniform", [(-1e300, 1e300)], [1e300], 1.0, {"perturbation": 1e300}, [0.0, one]),
-        ("nonuniform", [(0.0, 1.0)], [0.25], 1.0, {"max_iterations": 10, "iteration": 0, "perturbation": 0.5}, [0.0, 0.5, 0.3]),
-        ("nonuniform", [(0.0, 1.0)], [0.25], 1.0, {"max_iterations": 10, "iteration": 10, "perturbation": 0.5}, [0.0, 0.6, 0.3]),
-        ("nonuniform", [(-5.0, 5.0)], [5.0], 1.0, {"max_iterations": 4, "iteration": 2, "perturbation": 0.5}, [0.0, 0.7, 0.0]),
-        ("nonuniform", [(-5.0, 5.0)], [-5.0], 1.0, {"max_iterations": 4, "iteration": 1, "perturbation": 5.0}, [0.0, 0.2, one]),
-    ]
-    for kind, box, parent, prob, extra, draws in corpus_ops:
-        mutator_case(kind, box, parent, prob, extra, const_src(draws + [0.5] * 8))
-    corpus_sbx = [
-        ([(0.0, 1.0)], [0.0], [1.0], 1.0, 15, [0.0, 0.0, one, 0.0]),
-        ([(0.0, 1.0)], [0.0], [1.0], 1.0, 15, [0.0, 0.5, 0.0, 0.6]),
-        ([(0.0, 1.0)], [1.0], [0.0], 1.0, 0, [0.3, 0.1, 0.5, 0.5]),
-        ([(0.0, 1.0)], [0.5], [0.5], 1.0, 15, [0.0, 0.0]),
-        ([(0.0, 1.0)], [0.5], [0.5 + 2.0 ** -52], 1.0, 15, [0.0, 0.0]),
-        ([(0.0, 1.0)], [0.5], [0.5 + 2.0 ** -51], 1.0, 15, [0.0, 0.0, 0.9, 0.1]),
-        ([(-7.5, -2.25), (0.0, 1e-12)], [-7.5, 0.0], [-2.25, 1e-12], 1.0, 20, [0.2, 0.4, one, 0.7, 0.5, 2.0 ** -53, 0.2]),
-        ([(0.0, 1.0)], [0.2], [0.7], 0.5, 15, [math.nextafter(0.5, 1.0)]),
-        ([(0.0, 1.0)], [0.2], [0.7], 0.5, 15, [0.5, 0.51]),
-    ]
-    for box, p1, p2, prob, di, draws in corpus_sbx:
-        sbx_case(box, p1, p2, prob, di, const_src(draws + [0.75] * 8))
+    corpus_gen = []
+    cdir = os.path.join(os.path.dirname(os.path.dirname(os.path.abspath(__file__))), "corpus", "C08")
+    for fn in sorted(os.listdir(cdir)) if os.path.isdir(cdir) else []:
+        if not fn.endswith(".json"):
+            continue
+        for c in json.load(open(os.path.join(cdir, fn)))["cases"]:
+            hist["corpus_cases"] += 1
+            box = [tuple(b) for b in c["box"]]
+            if c["kind"] == "mutator":
+                mutator_case(c["op"], box, c["parent"], c["prob"], dict(c["extra"]), const_src(list(c["draws"]) + [0.5] * 8))
+            elif c["kind"] == "sbx":
+                sbx_case(box, c["p1"], c["p2"], c["prob"], c["distribution_index"], const_src(list(c["draws"]) + [0.75] * 8))
+            elif c["kind"] == "position":
+                for which in (("omopso", "smpso", "psoga") if c["which"] == "all" else (c["which"],)):
+                    position_case(which, box, c["x"], c["v"])
+            elif c["kind"] == "gen":
+                corpus_gen.append((box, c["precision"], c["n"], list(c["draws"])))
     for which in ("omopso", "smpso", "psoga"):
-        position_case(which, [(0.0, 1.0), (-5.0, 5.0)], [0.5, 5.0], [0.75, 1e-300])
-        position_case(which, [(0.0, 1.0), (-5.0, 5.0)], [0.5, -5.0], [-0.75, -1e-300])
-        position_case(which, [(0.0, 1.0)], [1.0], [math.inf])
-        position_case(which, [(2.0, 2.0)], [2.0], [-3.0])
+        position_case(which, [(0.0, 1.0)], [1.0], [math.inf])        # not representable in JSON
 
-    n_ops = ctx.pick(2400, 60000)
+    n_ops = ctx.pick(2400, 40000)
     for i in range(n_ops):
         k = rng.random()
         if k < 0.22:
@@ -683,11 +669,9 @@ def run(ctx):
             return rng.random()
         gen_vector_case(box, precs, rng.choice([1, 2, 3, 5]), src)
 
-    gen_vector_case([(0.0, 1.0), (-5.0, 5.0)], [None, None], 2, const_src([0.0, 0.0, one, one]))
-    gen_vector_case([(0.0, 1.0), (10, 20)], [0.5, 0.5], 3, const_src([0.25, 0.025, 0.75, 0.075, 0.5, one]))
-    gen_vector_case([(-7.5, -2.25)], [0], 2, const_src([0.0, one]))
-    gen_vector_case([(0.0, 1e-12), (1e15, 1e15 + 4.0)], [None, None], 2, const_src([0.3, 0.3, one, one]))
-    for _ in range(ctx.pick(500, 15000)):
+    for box, precs, n, draws in corpus_gen:
+        gen_vector_case(box, precs, n, const_src(draws))
+    for _ in range(ctx.pick(500, 8000)):
         gen_gen_case()
 
     ctx.coq_compare("c08_gen", HEADER, "gen_case", "nat", "c08_gen_run", "Nat.eqb", gcases, gexpected, gmeta,
@@ -698,7 +682,12 @@ def run(ctx):
                 "probabilities {0, 1, 0.5, 1/n, >1, <0, ...}, distribution indices 0..100, iterations 0..max, draws with 22% special values "
                 "(0, 0.5+-ulp, 1-2^-53, the probability +-ulp); a case is non-trivial when at least one coordinate went through clip "
                 "(mutators, SBX) / the velocity is not all zero (position update); distinct = distinct (operator, box, parents, options, tape). "
-                "generator cases: RandomGenerator over boxes with and without a declared precision, scripted draws incl. 0 and 1-2^-53 and dyadic ties")
+                "generator cases: RandomGenerator over boxes with and without a declared precision, scripted draws incl. 0 and 1-2^-53 and dyadic ties "
+                "(each generated vector is one case); DoE cases: FullFactor (with/without centre), Plackett-Burman, Box-Behnken, LHS, Halton, "
+                "uniform grid over the same box families (non-trivial when more than one parameter / always for scaled designs); "
+                "run cases: NSGAII, EpsMOEA, OMOPSO, SMPSO, PSOGA with N in {2,3,5,8} (thorough up to 20), G in {1,2,4} (thorough up to 7), "
+                "9 box templates incl. declared precisions, evaluation failures injected with probability 0 / 0.15 / 0.4, prob_mutation default / 0.5 / 1 "
+                "(one case = one whole run; non-trivial unless it is an NSGA-II run with a single generation, which has no variation step)")
     rhist = {"runs": {}, "evaluated_vectors": 0, "failed_evaluations": 0, "coordinates_on_a_bound": 0, "generation_steps": 0,
              "breed_passes": 0, "runs_aborted_by_complex_power": 0, "runs_skipped_nan": 0}
     run_level(ctx, rhist)
@@ -756,7 +745,7 @@ def enc_script(s):
         enc_vecs(s.get("vel", [])), ll(s.get("tapes", []), enc_tape), enc_rr(s.get("rerolls2", []))))
 
 
-def run_level(ctx, rhist):
+def run_level(ctx, rhist, specs=None):
     import contextlib
     import io
     import logging
@@ -781,7 +770,7 @@ def run_level(ctx, rhist):
             x = individual.vector
             k = id(individual)
             fail = False
-            if state["fail_p"] and state["streak"].get(k, 0) < 4 and rng.random() < state["fail_p"]:
+            if state["fail_p"] and state["streak"].get(k, 0) < 4 and state["fail_rng"].random() < state["fail_p"]:
                 fail = True
             ev.append(("eval", individual, list(x), fail))
             if fail:
@@ -802,6 +791,8 @@ def run_level(ctx, rhist):
         o_cross = ops.SimulatedBinaryCrossover.cross
 
         def cross(self, p1, p2):
+            if len(ev) > 50000:
+                raise RuntimeError("harness guard: the run does not terminate (more than 50000 recorded events)")
             rec.cut()
             a, b = list(p1), list(p2)
             r = o_cross(self, p1, p2)
@@ -1081,7 +1072,7 @@ def run_level(ctx, rhist):
              "SMPSO": (asw.SMPSO, "ASmpso"), "PSOGA": (asw.PSOGA, "APsoga")}
     cases, expected, meta = [], [], []
 
-    def one_run(name, box, N, G, fail_p, pm_opt, correspond=True):
+    def one_run(name, box, N, G, fail_p, pm_opt, correspond=True, seed=None):
         cls, coq_algo = ALGOS[name]
         bounds = [b for b, _ in box]
         precs = [p for _, p in box]
@@ -1097,10 +1088,12 @@ def run_level(ctx, rhist):
             for attr in ("mutator", "uniform_mutator", "non_uniform_mutator"):
                 if getattr(alg, attr, None) is not None:
                     getattr(alg, attr).probability = pm_opt
-        seed = rng.getrandbits(32)
+        if seed is None:
+            seed = rng.getrandbits(32)
         pyrandom.seed(seed)
         del ev[:]
         state["fail_p"] = fail_p
+        state["fail_rng"] = pyrandom.Random(seed ^ 0x5bd1e995)
         state["streak"] = {}
         inp = {"algorithm": name, "box": [list(b) for b in bounds], "precision": precs, "population_size": N, "generations": G,
                "failure_probability": fail_p, "prob_mutation": pm_opt, "python_random_seed": seed}
@@ -1167,9 +1160,14 @@ def run_level(ctx, rhist):
         if name == "PSOGA" and N == 2 and G == 1 and not any(s.get("name") == "run" for s in ctx.samples):
             ctx.samples.append({"name": "run", "input": inp, "evaluated_vectors": obs[0]})
 
+    if specs is not None:          # replay of stored runs: direct oracle only
+        for sp in specs:
+            one_run(sp["algorithm"], [(tuple(b), p) for b, p in zip(sp["box"], sp["precision"])], sp["population_size"], sp["generations"],
+                    sp["failure_probability"], sp["prob_mutation"], correspond=False, seed=sp["python_random_seed"])
+        return
     sizes = ctx.pick([2, 3, 5, 8], [2, 3, 5, 8, 12, 20])
     gens = ctx.pick([1, 2, 4], [1, 2, 4, 7])
-    reps = ctx.pick(1, 6)
+    reps = ctx.pick(1, 4)
     for name in ALGOS:
         for N in sizes:
             for G in gens:
@@ -1327,7 +1325,7 @@ def doe_level(ctx, dhist):
         scaled_case("halton", [(0.0, 1.0), (-7.5, -2.25)], 6)
         scaled_case("lhs", [(1e15, 1e15 + 4.0), (0.0, 1e-12)], 3)
         grid_case([(0.0, 1.0), (-5, 5)], 3)
-        for _ in range(ctx.pick(60, 1500)):
+        for _ in range(ctx.pick(60, 1000)):
             k = rng.random()
             if k < 0.15:
                 level_case("ff2", doe_box(rng.choice([1, 2, 3, 4, 5])))
@@ -1352,6 +1350,98 @@ def doe_level(ctx, dhist):
     ctx.coq_compare("c08_sc", HEADER, "sc_case", "nat", "c08_sc_run", "Nat.eqb", scases, sexp, smeta, shard=ctx.pick(300, 1500))
 
 
-LEVEL_TEXT = ("Machine-checked Coq theorems over a model of Operator.clip, the three mutators, SBX, the swarm position update and "
-              "gen_number/gen_vector.")
-LEVEL_NOTE = "work in progress"
+
+# --------------------------------------------------------------------------------------------------------------
+# ./check C08 --replay evidence/replays/C08_....json : re-executes the stored failing inputs on the implementation
+# --------------------------------------------------------------------------------------------------------------
+def replay(ctx, data):
+    import artap.operators as ops
+    import artap.utils as utils
+    from artap.algorithm_swarm import OMOPSO, SMPSO, PSOGA
+    print(json.dumps({k: data[k] for k in data if k not in ("failing_inputs", "correspondence_mismatches")}, indent=1)[:2000])
+    again = 0
+    for f in data.get("failing_inputs", []):
+        inp, op = f.get("input", {}), f.get("match", {}).get("op", "")
+        print("stored:", f.get("what"))
+        try:
+            if op.startswith("run/"):
+                before = len(ctx.oracle_failures)
+                run_level(ctx, {"runs": {}, "evaluated_vectors": 0, "failed_evaluations": 0, "coordinates_on_a_bound": 0,
+                                "generation_steps": 0, "breed_passes": 0, "runs_aborted_by_complex_power": 0, "runs_skipped_nan": 0}, specs=[inp])
+                new = ctx.oracle_failures[before:]
+                print("  now   :", new[0]["what"] if new else "every evaluated design is inside the box")
+                again += bool(new)
+                continue
+            box = [tuple(b) for b in inp["box"]]
+            params = make_params(box, inp.get("precision"))
+            draws = iter(list(inp.get("draws", [])) + [0.5] * 64)
+            if op == "gen_vector":
+                real = utils.random
+                utils.random = lambda: next(draws)
+                try:
+                    out = utils.VectorAndNumbers.gen_vector(params)
+                finally:
+                    utils.random = real
+                bad = [outside(x, lb, ub, pr) for x, (lb, ub), pr in zip(out, box, inp["precision"])]
+            elif op.startswith("update_position"):
+                cls = {"omopso": OMOPSO, "smpso": SMPSO, "psoga": PSOGA}[inp["op"].split("/")[1]]
+                part = type("P", (), {})()
+                part.vector, part.features = list(inp["position"]), {"velocity": list(inp["velocity"])}
+                holder = type("H", (), {})()
+                holder.parameters = params
+                cls.update_position(holder, [part])
+                out = part.vector
+                bad = [outside(x, lb, ub) for x, (lb, ub) in zip(out, box)]
+            elif inp.get("op") in ("pm", "uniform", "nonuniform", "sbx"):
+                with Recorder(ops) as rec:
+                    rec.shim.source = lambda: next(draws)
+                    if inp["op"] == "sbx":
+                        out = ops.SimulatedBinaryCrossover(params, inp["probability"], inp["distribution_index"]).cross(list(inp["p1"]), list(inp["p2"]))
+                        out = list(out[0]) + list(out[1])
+                        bad = [outside(x, lb, ub) for x, (lb, ub) in zip(out, box + box)]
+                    else:
+                        if inp["op"] == "pm":
+                            out = ops.PmMutator(params, inp["probability"], inp["distribution_index"]).mutate(list(inp["parent"]))
+                        elif inp["op"] == "uniform":
+                            out = ops.UniformMutator(params, inp["probability"], inp["perturbation"]).mutate(list(inp["parent"]))
+                        else:
+                            out = ops.NonUniformMutation(params, inp["probability"], inp["max_iterations"], inp["perturbation"]).mutate(list(inp["parent"]), inp["iteration"])
+                        bad = [outside(x, lb, ub) for x, (lb, ub) in zip(out, box)]
+            else:
+                print("  (generator designs are not re-executed; input: %s)" % json.dumps(inp)[:300])
+                continue
+            print("  now   : result %r -> %s" % (out, [b for b in bad if b] or "inside the box"))
+            again += any(bad)
+        except Exception as e:
+            print("  now   : raised %r" % (e,))
+            again += 1
+    for m in data.get("correspondence_mismatches", [])[:5]:
+        print("mismatch:", json.dumps(m, default=str)[:600])
+    print("replay: %d stored failing input(s) still fail" % again)
+    return 1 if again else 0
+
+
+LEVEL_TEXT = ("Machine-checked Coq theorems over an executable model of Operator.clip, the polynomial / uniform / non-uniform mutators, SBX, "
+              "the swarm position update, gen_number / gen_vector, the level / unit-cube / grid mapping of the DoE generators and one "
+              "generation of NSGA-II, eps-MOEA, OMOPSO, SMPSO and PSOGA (incl. the re-roll of failed evaluations). Operator level: for every "
+              "strictly-weakly-ordered coordinate type (instantiated at binary64 with Python's `<`, proved from the IEEE spec), every box with "
+              "lb <= ub, every parent in the box, every probability and every oracle tape (random draws and pre-clip values, hence every "
+              "distribution index, perturbation and iteration number) the children have the parent's dimension and lie in the box; the position "
+              "update lands in the box for every velocity. Generators: gen_number is within precision/2 (default 1e-12) of [lb, ub] in exact "
+              "rational arithmetic; level designs for every index matrix, scaled designs for every matrix in the unit cube, the uniform grid. "
+              "Run level: by induction over the generations, for every population size, generation count, selection, tape, velocity and failure "
+              "pattern, every vector submitted to the objective lies in the box widened by the generators' rounding slack (composed with "
+              "gen_vector in exact arithmetic: within half a precision step of the declared box). The model is tied to artap on every run: "
+              "operators replayed in Coq on recorded tapes and compared bit for bit, gen_vector / LHS / Halton / grid compared as exact rationals "
+              "under 4 ulp, DoE level designs bit for bit, and whole short runs of the five algorithms replayed in Coq from the recorded "
+              "selections / tapes / velocities / re-rolls with every evaluated vector compared bit for bit; a direct oracle checks box "
+              "membership of every child, generated design and evaluated vector on the implementation alone.")
+LEVEL_NOTE = ("Trusted: Coq kernel + vm_compute; FloatAxioms.ltb_spec/eqb_spec; the hand-written models and the Python harness. Oracles (inputs of "
+              "the model, arbitrary in the theorems): random draws, the pre-clip value of the pow formulas, tournament / archive / truncation / "
+              "pop_acceptance choices, velocities, which evaluations fail, the pyDOE design matrices. gen_number and the scaled designs are "
+              "proved in exact rationals; their binary64 rounding error (measured <= 1 ulp of the larger bound) is covered by the 4-ulp "
+              "tolerance of the correspondence and of the oracle, not by a theorem. That the mid-point (lb+ub)/2 lies between the bounds is a "
+              "hypothesis of the three-level theorem (proved for rationals, checked on every run for binary64). Outside the statement: NaN, "
+              "ranges whose width overflows, parameter_type 'integer', populations of one (direct oracle only), crashes (ZeroDivisionError of "
+              "polynomial mutation for lb = ub; TypeError from a complex power when a parent lies outside the box by the rounding slack). "
+              "Correspondence is sampled, the theorems are unbounded.")
